@@ -483,11 +483,39 @@ def stubattrs(ctx, R):
     R.check(key(st.heap.get(("n", "parent"))) == "None", "C06.RESET", g.qual + "|no parent", where(g), "no-op without a parent", "removeStub on a parentless label sets parent=%s" % key(st.heap.get(("n", "parent"))))
 
 
+def _overlap_view(ctx):
+    """algorithm_overlap, with simple private helpers inlined when the punting loops were factored out of it."""
+    def build():
+        import copy as _copy
+        from ..normalise import inline_helpers
+        from ..cfg import CFG
+
+        P = ctx.P
+        f = P.func(D + ".algorithm_overlap")
+        whiles = [n for n in ast.walk(f.node) if isinstance(n, ast.While)]
+        if len(whiles) >= 2:
+            return f, ctx.cfg(f), False
+        body, n = inline_helpers(P, f)
+        if not n:
+            return f, ctx.cfg(f), False
+        view = _copy.copy(f)
+        node = _copy.copy(f.node)
+        node.body = body
+        view.node = node
+        for st_ in body:
+            st_._parent = node
+        return view, CFG(body), True
+
+    return ctx.get("c04.overlap_view", build)
+
+
 @rule("C04.CAPACITY")
 def capacity(ctx, R):
     P = ctx.P
-    f = P.func(D + ".algorithm_overlap")
+    f, _cfg_unused, inl = _overlap_view(ctx)
     R.saw(f)
+    if inl:
+        R.note("C04.CAPACITY / C04.CONSERVE: algorithm_overlap analysed with its private helpers inlined")
     whiles = [n for n in ast.walk(f.node) if isinstance(n, ast.While)]
     outer = [w for w in whiles if any(isinstance(x, ast.While) and x is not w for x in ast.walk(w))]
     inner = [w for w in whiles if w not in outer]
@@ -600,8 +628,7 @@ def capacity(ctx, R):
 @rule("C04.CONSERVE")
 def conserve(ctx, R):
     P = ctx.P
-    f = P.func(D + ".algorithm_overlap")
-    cfg = ctx.cfg(f)
+    f, cfg, _inl = _overlap_view(ctx)
     whiles = [c for c in cfg.loops if isinstance(c["stmt"], ast.While)]
     outer = [w for w in whiles if any(isinstance(x, ast.While) and x is not w["stmt"] for x in ast.walk(w["stmt"]))]
     inner = [w for w in whiles if w not in outer]
